@@ -407,6 +407,16 @@ func (s *Store) finish(k Key, ki KindInfo, old, m map[string]any, dry bool) (map
 	if err := s.admit(k, m); err != nil {
 		return nil, false, err
 	}
+	// apimachinery ValidateOwnerReferences: at most one owner reference may be the controller
+	nctrl := 0
+	for _, r := range ownerRefs(m) {
+		if r.Controller != nil && *r.Controller {
+			nctrl++
+		}
+	}
+	if nctrl > 1 {
+		return nil, false, apierrors.NewInvalid(schema.GroupKind{Group: k.Group, Kind: k.Kind}, k.Name, nil)
+	}
 	if reflect.DeepEqual(normalize(old), m) {
 		return deepCopyMap(m), false, nil // no-op write: rv unchanged
 	}
